@@ -18,12 +18,12 @@ ASSUMPTIONS = ['statistical bounds are set at >= 7 sigma of the estimator (false
                '"rejects" means raises an exception instead of returning a frame']
 PLAN = {'quick': {'gen': 8}, 'thorough': {'gen': 16, 'tests': 1, 'docs': 1}}
 REQUIRED_BUCKETS = ['shot:poisson', 'shot:gaussian', 'shot:reject-negative', 'shot:reject-huge', 'shot:reject-array',
-                    'read_noise', 'dark:nofpn', 'dark:fpn', 'rule07', 'psd:square', 'psd:nonsquare', 'cosmic']
+                    'read_noise', 'dark:nofpn', 'dark:fpn', 'rule07', 'psd:square', 'psd:nonsquare', 'cosmic', 'fresh-process']
 REQUIRED_ANCHORS = ['anchor:shot_noise', 'anchor:read_noise', 'anchor:dark_current', 'anchor:power_spectrum',
                     'anchor:_cosmic_ray', 'anchor:_nrays']
 REQUIRED_ORACLES = ['deterministic', 'seed-sensitive', 'global-rng-untouched', 'global-rng-independent', 'poisson:support',
                     'poisson:moments', 'gaussian:support', 'gaussian:moments', 'shot:rejects', 'read:moments', 'dark=floor(rate)',
-                    'psd:zero-outside', 'psd:rms', 'cosmic:wellformed']
+                    'psd:zero-outside', 'psd:rms', 'cosmic:wellformed', 'fresh-process']
 
 
 def anchors(lentil):
@@ -31,6 +31,16 @@ def anchors(lentil):
     return [('shot_noise', d.shot_noise), ('read_noise', d.read_noise), ('dark_current', d.dark_current),
             ('rule07_dark_current', d.rule07_dark_current), ('power_spectrum', lentil.wfe.power_spectrum),
             ('_cosmic_ray', d._cosmic_ray), ('_nrays', d._nrays), ('_propagate_ray', d._propagate_ray)]
+
+
+def core_verif():
+    from vp import core
+    return core.VERIF_DIR
+
+
+def repo_dir_():
+    from vp import core
+    return core.repo_dir()
 
 
 def gstate():
@@ -157,6 +167,15 @@ def workload(ctx, lentil):
         ctx.check(abs(m) <= 7 * sig / np.sqrt(N) and abs(v - sig ** 2) <= 7 * sig ** 2 * np.sqrt(2.0 / N), 'read:moments',
                   'read|moments', 'read noise does not have zero mean and the requested standard deviation (7 sigma)',
                   {'sigma': sig, 'mean': m, 'var': v})
+        # the same for frames of electrons stored as integers (counts), signed and unsigned
+        for dt in (np.int64, np.uint16, np.int32):
+            ibase = (rng.integers(200, 60000, size=(500, 400))).astype(dt)
+            sig_i = float(rng.uniform(2, 20))
+            xi = np.asarray(D.read_noise(ibase, sig_i, seed=seed), float) - ibase.astype(float)
+            mi, vi = float(xi.mean()), float(xi.var(ddof=1))
+            ctx.check(abs(mi) <= 7 * sig_i / np.sqrt(N) and abs(vi - sig_i ** 2) <= 7 * sig_i ** 2 * np.sqrt(2.0 / N), 'read:moments',
+                      'read|moments|integer-frame', 'read noise on an integer-typed frame does not have zero mean and the requested '
+                      'standard deviation (7 sigma)', {'sigma': sig_i, 'mean': mi, 'var': vi, 'dtype': np.dtype(dt).name})
     for i in range(n):
         rate = float(10 ** rng.uniform(-1, 4))
         shape = gen.rshape(rng, 1, 20)
@@ -210,6 +229,59 @@ def workload(ctx, lentil):
         except Exception as e:
             ctx.check(False, 'cosmic:wellformed', f'cosmic|raises={type(e).__name__}', f'cosmic_rays raised {type(e).__name__}: {e}',
                       {'state': state, 'shape': list(shape), 'px': list(px), 'ts': ts})
+    # ---- history independence across processes: pairs of calls that differ in ONE argument are evaluated here in one order
+    # and in a fresh interpreter in the opposite order; every result must be the same in both -----------------------------
+    import pickle
+    import subprocess
+    import sys
+    import tempfile
+    calls = []
+    for i in range(6 if ctx.tier == 'quick' else 24):
+        shape = gen.rshape(rng, 6, 20)
+        mask = gen.support(rng, shape, kind=int(rng.choice([0, 3, 4]))).astype(float)
+        if mask.sum() < 4:
+            mask = np.ones(shape)
+        rms, hpf, ex, sd = float(rng.uniform(1e-9, 1e-7)), float(rng.uniform(2, 10)), float(rng.uniform(2, 4)), int(rng.integers(0, 99))
+        ps1, ps2 = float(rng.uniform(1e-3, 5e-3)), float(rng.uniform(6e-3, 2e-2))
+        calls.append(('wfe.power_spectrum', (mask, ps1, rms, hpf, ex), {'seed': sd}))
+        calls.append(('wfe.power_spectrum', (mask, ps2, rms, hpf, ex), {'seed': sd}))          # only the pixel scale differs
+        calls.append(('wfe.power_spectrum', (mask, ps2, rms * 2, hpf, ex), {'seed': sd}))      # only the rms differs (from the 2nd)
+        img = rng.uniform(1e3, 1e5, size=shape)
+        calls.append(('detector.read_noise', (img, 5.0), {'seed': sd}))
+        calls.append(('detector.read_noise', (img, 9.0), {'seed': sd}))
+        calls.append(('detector.dark_current', (120.0, shape, 0.2), {'seed': sd}))
+        calls.append(('detector.dark_current', (120.0, shape, 0.3), {'seed': sd}))
+        calls.append(('detector.shot_noise', (img, 'poisson'), {'seed': sd}))
+        calls.append(('detector.shot_noise', (img, 'gaussian'), {'seed': sd}))
+
+    def evaluate(lst):
+        out = []
+        for name, args, kw in lst:
+            mod, fn = name.split('.')
+            f = getattr(getattr(lentil, mod), fn)
+            out.append(probe.fingerprint(np.asarray(f(*args, **kw))))
+        return out
+    here = evaluate(calls)
+    with tempfile.TemporaryDirectory(prefix='vp-c18-') as td:
+        pin, pout = td + '/in.pkl', td + '/out.pkl'
+        with open(pin, 'wb') as f:
+            pickle.dump(calls[::-1], f)
+        code = ("import sys, pickle, numpy as np; sys.path.insert(0, %r); sys.path.insert(0, %r); import lentil; "
+                "from vp import probe; calls = pickle.load(open(%r, 'rb')); out = []\n"
+                "for name, args, kw in calls:\n"
+                "    mod, fn = name.split('.'); f = getattr(getattr(lentil, mod), fn)\n"
+                "    out.append(probe.fingerprint(np.asarray(f(*args, **kw))))\n"
+                "pickle.dump(out, open(%r, 'wb'))") % (core_verif(), repo_dir_(), pin, pout)
+        p = subprocess.run([sys.executable, '-c', code], timeout=300, stdout=subprocess.PIPE, stderr=subprocess.STDOUT)
+        if p.returncode != 0:
+            ctx.check(False, 'fresh-process', 'fresh-process|failed', 'fresh-process replay failed: ' + p.stdout.decode()[-300:], {})
+        else:
+            there = pickle.load(open(pout, 'rb'))[::-1]
+            for (name, args, kw), a, b in zip(calls, here, there):
+                ctx.case({'fresh-process': name, 'seed': kw.get('seed')}, ['fresh-process'])
+                ctx.check(a == b, 'fresh-process', f'history-dependent|{name}',
+                          f'{name}: the result of a seeded call depends on which calls were made before it in the process '
+                          '(differs from the same call in a fresh interpreter with the opposite call order)', {'model': name})
     ctx.notes['_events'] = log.events
 
 
